@@ -198,7 +198,7 @@ func init() {
 	core.Register(&core.Prop{
 		ID:    "C16",
 		Title: "Returned slices are snapshots and argument slices are copied",
-		Cases: func(tier string) int { return tierN(tier, 42000, 840000) },
+		Cases: func(tier string) int { return tierN(tier, 42000, 3360000) },
 		Run:   runC16,
 		Rule: "one container per case, cycling through all 21 kinds and element types, in a state reached by a random history; (a) every slice returned by Values()/Keys() is overwritten with a sentinel and appended to within its capacity, " +
 			"then all observers incl. iteration order and ToJSON must be unchanged; (b) snapshots and their deep copies are kept across 3-25 further mutations (incl. Sort, Clear, FromJSON) and must stay equal; " +
